@@ -25,6 +25,11 @@ func (node *tagForNode) Execute(ctx *ExecutionContext, writer TemplateWriter) (f
 	// Backup forloop (as parentloop in public context), key-name and value-name
 	forCtx := NewChildExecutionContext(ctx)
 	parentloop := forCtx.Private["forloop"]
+	if parentloop == nil {
+		// (a template included from inside a loop is handed the includer's names, the
+		// enclosing loop among them, as its public context)
+		parentloop = forCtx.Public["forloop"]
+	}
 
 	// Create loop struct
 	loopInfo := &tagForLoopInformation{
